@@ -113,7 +113,10 @@ class Straight:
         new = subst(value_expr, env) if value_expr is not None else None
         if new is not None and not self._size_ok(new):
             new = None
-        self._kill_dependents(env, name)
+        # every stored expression is written over the values names had on entry; a name that becomes unknown can no
+        # longer be told apart from its entry value, so what mentions it is dropped too
+        if new is None:
+            self._kill_dependents(env, name)
         env[name] = new
 
     def _block(self, stmts, env):
@@ -147,8 +150,10 @@ class Straight:
                         env[name] = None
                     else:
                         new = ast.IfExp(test=copy.deepcopy(test), body=a, orelse=b)
-                        self._kill_dependents(env, name)
-                        env[name] = new if self._size_ok(new) else None
+                        if not self._size_ok(new):
+                            self._kill_dependents(env, name)
+                            new = None
+                        env[name] = new
             else:
                 # anything else: names stored anywhere inside are opaque afterwards; a call of a method of self may
                 # rebind any tracked attribute of self
